@@ -48,22 +48,31 @@ static void sub_solve() {
     // alone (row sums, diagonals of neighbours, strength of connection) is wrong everywhere at once.  Every third one uses the Chebyshev smoother
     // (its polynomial is built on the distributed Gershgorin estimate), the others cycle through the remaining relaxations.
     const long T = w.size > 1 ? vf::opt_int("thin_solves", vf::tier(12, 48)) : 0;
-    for (long idx = 0; idx < N + T; ++idx) {
+    // Cases idx >= N + T are "partly convective" cases: run only by the dedicated jobs (--convective=1, 2-4 ranks, short watchdog) and only those run there.
+    // An upwind convection term covers the lowest third / half / quarter of the grid lines, the grid is cut into strips of lines, so the
+    // strength-of-connection graph is non-symmetric on some ranks only and PMIS aggregates vanish on a strict subset of the ranks.  Not an SPD
+    // M-matrix: no convergence clause, Krylov breakdowns are not counted; termination, rank-consistency, truthful residual and the hierarchy oracles stay.
+    const bool conv_only = vf::opt_int("convective", 0) != 0; const long CV = conv_only ? vf::opt_int("conv_solves", vf::tier(8, 32)) : 0;
+    for (long idx = conv_only ? N + T : 0; idx < N + T + CV; ++idx) {
         if (!vf::selected("solve", idx)) continue;
-        const bool thin = idx >= N; const long k = idx - N;
+        const bool conv = idx >= N + T; const bool thin = idx >= N && !conv; const long k = idx - N;
         uint64_t cs = vf::case_seed("solve", idx * 16 + sr); Rng r(cs); vfm::seed_delays(cs, w.rank);
         long cell = (offset + idx * 115) % NCELL;
         std::string co = COARS[cell % 2], rl = RELAX[(cell / 2) % 9], sv = SOLV[(cell / 18) % 8], ds = DIRECT[(cell / 144) % 2]; bool repart = (cell / 288) % 2;
         if (thin) { static const char *OTHER[] = {"spai0", "damped_jacobi", "gauss_seidel", "ilu0", "iluk", "ilup", "ilut", "spai1"}; static const char *TS[] = {"cg", "bicgstab", "gmres", "cg", "idrs", "fgmres", "cg", "lgmres", "bicgstabl", "richardson"};
             rl = k % 3 == 0 ? "chebyshev" : OTHER[(k / 3 * 2 + k % 3 - 1 + vf::ctx().seed) % 8]; sv = TS[(k / 3 + (k % 3) * 3 + sr) % 10]; co = COARS[(k / 3 + k % 3) % 2]; }
+        // partly convective cases: solvers that recompute the residual on exit (the kappa-based bound for recursive residuals does not cover the residual
+        // peaks of BiCGStab / IDR(s) on a convection-dominated system: seen 7e-9 reported vs 3e-7 true after 258 IDR(s) steps) and no Chebyshev smoother (SPD only)
+        if (conv) { static const char *CS[] = {"gmres", "fgmres", "lgmres"}; sv = CS[(idx + sr) % 3]; co = COARS[idx % 2]; if (rl == "chebyshev") rl = "spai0"; }
         { std::string fr = vf::opt("force_relax"), fs = vf::opt("force_solver"); if (!fr.empty()) rl = fr; if (!fs.empty()) sv = fs; }      // targeted runs (development / replay of a cell family)
         Problem p; Part rp; Rng rpart(cs ^ 0x5bd1e9955bd1e995ULL);     // own stream for the partition: every other draw is independent of the rank count
-        if (!thin) { p = make_problem(r, 300, (int)vf::tier(900, 1500)); rp = vfm::random_part(p.A.n, w.size, rpart); }
+        if (conv) { ConvSpec sp; p.A = random_partly_convective(rpart, w.size, sp, rp, 28); p.family = "partly-convective"; p.f = vf::random_vector(p.A.n, r); p.x0.assign(p.A.n, 0.0); vf::obs_sum("partly_convective_solves"); }
+        else if (!thin) { p = make_problem(r, 300, (int)vf::tier(900, 1500)); rp = vfm::random_part(p.A.n, w.size, rpart); }
         else { int lines = (int)rpart.range(1, 2); vf::GridSpec g; g.ny = lines * w.size; g.nx = std::max<int>((int)rpart.range(24, 48), (300 + g.ny - 1) / g.ny); g.nz = 1; g.nine = r.coin(0.25);
             g.contrast = r.coin(0.6) ? 1.0 : r.logu(1.0, 10.0); g.aniso = r.coin(0.7) ? 1.0 : r.logu(0.1, 1.0);
             p.A = vf::grid_diffusion(g, r); validate_spd_mmatrix(p.A); p.family = std::string("G1-") + (g.nine ? "9pt" : "5pt") + "-thin-slab"; p.f = vf::random_vector(p.A.n, r); p.x0.assign(p.A.n, 0.0);
             rp.assign(w.size + 1, 0); for (int q = 0; q <= w.size; ++q) rp[q] = (ptrdiff_t)q * lines * g.nx; vf::obs_sum("thin_slab_solves"); if (rl == "chebyshev") vf::obs_sum("thin_slab_chebyshev_solves"); }
-        bool budget = r.coin(0.2) && !thin, left = !budget && (sv == "bicgstab" || sv == "bicgstabl" || sv == "gmres" || sv == "lgmres") && r.coin(0.25), rebuildable = r.coin();
+        bool budget = r.coin(0.2) && !thin && !conv, left = !budget && !conv && (sv == "bicgstab" || sv == "bicgstabl" || sv == "gmres" || sv == "lgmres") && r.coin(0.25), rebuildable = r.coin();
         size_t maxiter = budget ? (size_t)r.range(3, 9) : (sv == "richardson" ? 1000 : 300); double tol = 1e-8;
         if (!budget) maxiter = (size_t)vf::opt_int("force_maxiter", (long)maxiter);     // development only
         ptree prm; prm.put("precond.coarsening.type", co); prm.put("precond.relax.type", rl); prm.put("precond.direct.type", ds); prm.put("precond.repart.type", "merge");
@@ -79,7 +88,7 @@ static void sub_solve() {
         std::vector<double> f(p.f.begin() + rp[w.rank], p.f.begin() + rp[w.rank + 1]), x(p.x0.begin() + rp[w.rank], p.x0.begin() + rp[w.rank + 1]);
         SolveOut o; std::unique_ptr<Solver> slv; g_rec.lv.clear(); g_rec.on = true;
         try { slv.reset(new Solver(comm, std::tie(nloc, S.ptr, S.col, S.val), prm)); g_rec.on = false; std::tie(o.iters, o.res) = (*slv)(f, x); }
-        catch (const std::exception &e) { g_rec.on = false; o.threw = true; o.what = e.what(); c.fail("exception:" + tag, e.what()); }
+        catch (const std::exception &e) { g_rec.on = false; o.threw = true; o.what = e.what(); if (conv) vf::obs_sum("nonsym_exceptions_not_counted"); else c.fail("exception:" + tag, e.what()); }
         bool same = check_rank_consistent(c, tag, o);
         int anythrew = o.threw, gt = 0; MPI_Allreduce(&anythrew, &gt, 1, MPI_INT, MPI_MAX, w.comm); if (gt) continue;
         std::vector<double> gx = allgather_vec(x.data(), rp);
@@ -100,8 +109,8 @@ static void sub_solve() {
         bag.collect();
         if (w.rank) continue;
         //-------------------------------------------------------------- rank 0
-        double kappa = kappa_spd(p.A);
-        TruthSpec ts; ts.solver = sv; ts.maxiter = maxiter; ts.tol = tol; ts.kappa = kappa; ts.left = left; ts.left_true = left_true; ts.must_converge = !budget;
+        double kappa = conv ? kappa_svd(p.A) : kappa_spd(p.A);
+        TruthSpec ts; ts.solver = sv; ts.maxiter = maxiter; ts.tol = tol; ts.kappa = kappa; ts.left = left; ts.left_true = left_true; ts.must_converge = !budget && !conv;
         if (sv == "richardson" && !budget) { if (w.size > 1) ts.note = ref_converges ? "converges in " + std::to_string(ref_iters) + " iterations" : "does not converge either"; else { ts.note = "this is the single-rank run"; vf::obs_sum((std::isfinite(o.res) && o.res < tol) ? "richardson_np1_converges" : "richardson_np1_diverges"); } }
         if (same) check_truth(c, tag, p.A, p.f, gx, p.x0, o, ts);
         c.check(nlev >= 2, "harness:single-level:" + tag, "hierarchy has a single level; the case does not exercise the distributed setup", J().n("levels", nlev));
@@ -171,25 +180,29 @@ static void sub_pmis(const std::string &sub) {
     World &w = world(); mpi::communicator comm(w.comm); const bool bk = sub == "pmis_bk", small = sub == "pmis_small_aggr";
     // sub "pmis_small_aggr" (own mpi-asan jobs only): the input class "more near-null-space vectors than the smallest aggregate has unknowns".
     // The vectors cannot be reproduced there; what is monitored is memory safety of the call (on this tree: QR::R reads past its buffer).
-    long N = small ? vf::opt_int("small_cases", 3) : bk ? vf::opt_int("pmis_bk_cases", vf::tier(8, 60)) : vf::opt_int("pmis_cases", vf::tier(16, 120));
+    const bool conv_only = vf::opt_int("convective", 0) != 0 && !small && !bk;     // dedicated jobs: partly convective inputs only (see sub_solve)
+    long N = conv_only ? vf::opt_int("conv_pmis_cases", vf::tier(8, 32)) : small ? vf::opt_int("small_cases", 3) : bk ? vf::opt_int("pmis_bk_cases", vf::tier(8, 60)) : vf::opt_int("pmis_cases", vf::tier(16, 120));
     for (long idx = 0; idx < N; ++idx) {
         if (!vf::selected(sub, idx)) continue;
-        uint64_t cs = vf::case_seed(sub, idx * 16 + w.size); Rng r(cs); vfm::seed_delays(cs, w.rank);
+        uint64_t cs = vf::case_seed(sub, (idx + (conv_only ? 5000 : 0)) * 16 + w.size); Rng r(cs); vfm::seed_delays(cs, w.rank);
         int b = idx % 3 == 2 ? (int)r.range(2, 3) : 1; int K = (int)r.range(0, 3); if (idx % 5 == 0) K = 0;
+        if (conv_only) { b = 1; K = (int)r.range(0, 2); }
         if (bk) { b = (int)r.range(2, 3); K = (int)r.range(1, 3); } else if (b > 1) K = 0;
         if (small) { b = 1; K = 3; }
         Problem p = make_problem(r, 40, idx % 4 == 0 ? 120 : 500);
         // every fourth case: anisotropic 2-D grid whose weak direction (y, the slow index) is the one the contiguous row partition cuts,
         // so that weak connections cross rank boundaries
-        bool aniso_case = !small && idx % 4 == 1;
+        bool aniso_case = !small && !conv_only && idx % 4 == 1;
         if (aniso_case) { vf::GridSpec g; g.nx = (int)r.range(6, 20); g.ny = (int)r.range(std::max(4, w.size), 24); g.nz = 1; g.aniso = r.logu(0.01, 0.15); g.contrast = r.coin() ? 1.0 : r.logu(1.0, 3.0);
             p.A = vf::grid_diffusion(g, r); validate_spd_mmatrix(p.A); p.family = "G1-5pt-anisotropic"; vf::obs_sum("pmis_anisotropic_cases"); }
+        Part conv_rp; if (conv_only) { ConvSpec sp; p.A = random_partly_convective(r, w.size, sp, conv_rp); p.family = "partly-convective"; vf::obs_sum("partly_convective_pmis_cases"); }
         // isolate a few vertices (diagonal-only rows and columns)
-        Csr<double> A0 = p.A; bool iso = r.coin(0.5); std::set<long> isolated;
+        Csr<double> A0 = p.A; bool iso = r.coin(0.5) && !conv_only; std::set<long> isolated;
         if (iso) { long cnt = r.range(1, std::max<long>(1, A0.n / 15)); for (long q = 0; q < cnt; ++q) isolated.insert(r.range(0, A0.n - 1));
             Csr<double> T(A0.n, A0.n); for (size_t i = 0; i < A0.n; ++i) { for (auto j = A0.ptr[i]; j < A0.ptr[i + 1]; ++j) if ((size_t)A0.col[j] == i || (!isolated.count(i) && !isolated.count(A0.col[j]))) T.push(A0.col[j], A0.val[j]); T.end_row(); } A0 = T; validate_spd_mmatrix(A0); }
         Csr<double> G = b == 1 ? A0 : vf::kron(A0, r.coin() ? vf::identity_block(b) : vf::spd_block(b, r), b);
         long n = G.n; Part rp = vfm::random_part(n, w.size, r, b); double eps = r.coin(0.7) ? 0.08 : r.uni(0.02, 0.3); if (small) eps = r.uni(0.2, 0.4);
+        if (conv_only) { rp = conv_rp; eps = r.coin(0.7) ? 0.08 : r.uni(0.05, 0.15); }
         long smallest = -1;
         if (small) { Csr<double> S0 = vfm::slice_rows(G, rp[w.rank], rp[w.rank + 1]); size_t n0 = S0.n; DM A0d(comm, std::tie(n0, S0.ptr, S0.col, S0.val), n0); smallest = smallest_aggregate(A0d, eps, b, 4);
             if (smallest >= 3 || smallest < 1) { vf::obs_sum("small_aggr_cases_outside_the_class"); continue; } K = (int)smallest + 1; }
